@@ -38,6 +38,7 @@ type scEntry struct {
 func helperPath(t *testing.T) string {
 	p := filepath.Join(os.Getenv("VERIF_BUILD"), "savehelper"+os.Getenv("VERIF_HELPER_SUFFIX"))
 	if _, err := os.Stat(p); err != nil {
+		fmt.Fprintf(os.Stderr, "HARNESS-SETUP-FAILED save helper not built (%v)\n", err)
 		t.Skipf("save helper not built (%v)", err)
 	}
 	return p
@@ -243,6 +244,7 @@ func TestC20_CrashDuringSave(t *testing.T) {
 	r.Assume("crash model: the process stops between two file-system syscalls and everything issued before has reached the disk in order (no reordering by the kernel/disk); torn writes are modelled as a prefix of the last written buffer")
 	helper := helperPath(t)
 	if err := straceAvailable(); err != nil {
+		fmt.Fprintf(os.Stderr, "HARNESS-SETUP-FAILED %v\n", err)
 		t.Skipf("%v", err)
 	}
 	r.Set("injector", "strace -e inject=<syscall>:signal=KILL:when=<k>")
